@@ -810,7 +810,7 @@ func writeReset(dir, pkgName string, files []string, final map[string][]byte, in
 	}
 	sort.Strings(report.Globals)
 	var b bytes.Buffer
-	b.WriteString("// Code generated by /verif/instr. DO NOT EDIT.\n\npackage " + pkgName + "\n\nimport (\n")
+	b.WriteString("//go:build verif\n\n// Code generated by /verif/instr. DO NOT EDIT.\n\npackage " + pkgName + "\n\nimport (\n")
 	var ims []string
 	for l := range imports {
 		ims = append(ims, l)
@@ -893,7 +893,9 @@ func writeRuntime(root string) {
 	}
 }
 
-const runtimeSrc = `// Code generated by /verif/instr. DO NOT EDIT.
+const runtimeSrc = `//go:build verif
+
+// Code generated by /verif/instr. DO NOT EDIT.
 
 // Package zzverifrt is the seam between the instrumented copy of the library and the
 // simulator. With no hook installed every function is the identity, so the
